@@ -909,8 +909,13 @@ func (r *resolver) findGrouping(y *Uses) (*Grouping, error) {
 			if p != nil {
 				// issue #50 - submodules can reference types in parent and in any
 				// other submodule w/o prefix
-				if m, isModule := p.(*Module); isModule && m.belongsTo != nil {
-					// (a submodule loaded on its own has no module to continue in)
+				// (a submodule loaded on its own has no module to continue in; one included
+				// by another submodule continues in the module they all belong to)
+				for p != nil {
+					m, isModule := p.(*Module)
+					if !isModule || m.belongsTo == nil {
+						break
+					}
 					p, _ = m.Parent().(Definition)
 				}
 			}
